@@ -499,7 +499,8 @@ func runC19(e *env) error {
 		for _, c := range g {
 			req.Add(sx.S(c))
 		}
-		add(req, sx.S(got), map[string]any{"kind": "CommentToString", "group": g})
+		obs := sx.H("doc", sx.Strs("lines", parse.SettingLines(got)), sx.B(strings.Contains(got, "goverter:converter")), sx.B(strings.Contains(got, "goverter:variables")))
+		add(req, obs, map[string]any{"kind": "CommentToString+SettingLines", "group": g, "flattened": got})
 		if strings.Contains(got, "goverter:") {
 			e.rep.Nontrivial("c2s:" + strings.Join(g, "\x00"))
 		}
